@@ -30,6 +30,7 @@ package valid
 // buffers
 
 //@ func newStrBuf
+//@   requires [C13 newStrBuf.size] len(size) > 0 ==> size[0] >= 0
 //@   modifies nothing
 //@   ensures result != nil && fresh(result) && sb.content(result) == ""
 
@@ -153,6 +154,8 @@ package valid
 //@   requires t != nil
 //@   modifies nothing
 //@   ensures result != nil && rt.kind(result) != 22
+//@   loop#0 invariant t != nil
+//@   loop#0 decreases rt.depth(t)
 
 // ---------------------------------------------------------------------------
 // LRU cache (C09 sequential behaviour, C10 lock discipline, C08 weak cache contract)
